@@ -106,6 +106,17 @@ def find(req):
                 return {"reproduced": True, "target": "sharepoint2text/cli.py::main", "inputs": {"argv": [os.path.basename(a) for a in argv]},
                         "expected": "exit 0 with output, or exit 1 with empty stdout and one stderr line",
                         "observed": f"exit={rc} stdout_bytes={len(o)} stderr_lines={e.count(chr(10))}"}
+    # in a fresh process (logging unconfigured): a failing input gives exactly one stderr line
+    import subprocess
+    import sys
+    with tempfile.TemporaryDirectory() as d:
+        g = os.path.join(d, "g.pdf")
+        open(g, "wb").write(b"garbage not a pdf")
+        p = subprocess.run([sys.executable, "-m", "sharepoint2text.cli", g], capture_output=True, text=True, cwd=repo, timeout=120)
+        tried += 1
+        if not (p.returncode == 1 and p.stdout == "" and p.stderr.count("\n") == 1):
+            return {"reproduced": True, "target": "sharepoint2text/cli.py::main", "inputs": {"argv": ["g.pdf"], "content": "garbage not a pdf"},
+                    "expected": "exit 1, empty stdout, one stderr line", "observed": f"exit={p.returncode} stdout_bytes={len(p.stdout)} stderr_lines={p.stderr.count(chr(10))}"}
     return {"reproduced": False, "note": f"{tried} native cases within the ExtractionError family / CLI contract"}
 
 
